@@ -70,16 +70,16 @@ func ruleC01_1(c *Ctx, r *Rep) {
 			continue
 		}
 		if s.Kind == "delete" {
-			r.Check("C01.1", k, s.Pos, in(owner, prunes...), "delete of delivery rows by a retention/prune job",
+			r.Check("C01.1", k, s.Pos, c.ownedBy(s, prunes...), "delete of delivery rows by a retention/prune job",
 				"delivery rows are deleted by "+owner+", which is not one of the three prune jobs (completed / expired / deleted-subscription): an outstanding message can disappear")
 			continue
 		}
 		bad := ""
 		for _, m := range s.Muts {
 			switch {
-			case m.Col == "completed_at" && m.Op == "set" && !in(owner, retire...):
+			case m.Col == "completed_at" && m.Op == "set" && !c.ownedBy(s, retire...):
 				bad = "sets deliveries.completed_at (retires the message) outside ack / dead-letter / seek"
-			case m.Col == "expires_at" && !in(owner, seeks...):
+			case m.Col == "expires_at" && !c.ownedBy(s, seeks...):
 				bad = "rewrites deliveries.expires_at of existing rows outside seek"
 			case m.Col == "message_id" || m.Col == "subscription_id":
 				bad = "re-keys an existing delivery (" + m.Col + ")"
